@@ -128,12 +128,13 @@ theorem tail_err {gh : Gh} {order : Nat} (p : Prog (Res (Nat × Nat)))
 theorem reserveOrSteal_L (ok : GeomOk16 c.geom) (gh : Gh) (i order cls loc : Nat) (hord : order ≤ c.geom.treeOrder) :
     SafeL false c.geom (UGetPost c.geom gh order) gh (reserveOrSteal c i order cls loc) := by
   unfold reserveOrSteal
-  apply SafeL.bind _ _ _ (Neut.safeL gh _ (trees_reserveOrSteal_neut c i cls _))
-  rintro r gh0 ⟨rfl, _⟩
+  apply SafeL.bind _ _ _ (Neut.safeL gh _ (trees_reserveOrSteal_neut' c i cls _))
+  rintro r gh0 ⟨rfl, hfree⟩
   cases r with
   | none => exact rfl
   | some x =>
     obtain ⟨reserved, free, tcls⟩ := x
+    have hfree : 2 ^ order ≤ free := hfree _ rfl
     simp only
     apply SafeL.bind _ _ _ (lowerGet_L ok gh0 _ order none hord (fun f h => by cases h))
     intro lr gh1 h1
@@ -152,7 +153,7 @@ theorem reserveOrSteal_L (ok : GeomOk16 c.geom) (gh : Gh) (i order cls loc : Nat
           split
           · simp
           · split
-            · simp
+            · omega
             · simp only [neut_bind_iff]
               apply Neut.mono _ _ (locals_swap_neut c _ _ _ _)
               intro old _
@@ -331,7 +332,7 @@ theorem searchBest_scan_L {gh : Gh} {order : Nat} (tf ntrees nbuf start : Nat) (
   | succ cnt ih =>
     unfold Trees.searchBest.scan
     split
-    · exact rfl
+    · exact ⟨rfl, by simp⟩
     · show SafeL false c.geom _ gh (Prog.load .tree _ _)
       intro tree
       show SafeL false c.geom _ gh (if tree.reserved = true then _ else _)
